@@ -50,8 +50,8 @@ class Builder:
     def D(self, reads=()):
         return self.expr(kind='D', k=self.newk(), reads=list(reads))
 
-    def I(self, reads=()):
-        return self.expr(kind='I', k=self.newk(), reads=list(reads))
+    def I(self, reads=(), pairs=False):
+        return self.expr(kind='I', k=self.newk(), reads=list(reads), name='2' if pairs else '')
 
     def attr(self, base, attr):
         return self.expr(kind='attr', name=base, attr=attr)
@@ -470,7 +470,9 @@ class RandomGen:
             return i
         if r < 0.62:
             i = b.node(kind='for', fn=fn, tgt=[self.r.choice(self.names)])
-            N[i - 1]['e'] = b.I(self.reads(scope))
+            if self.contexts and self.r.random() < 0.25:      # for x, y in I2(...): a tuple target
+                N[i - 1]['tgt'] = [self.r.choice(self.names), self.r.choice(self.names)]
+            N[i - 1]['e'] = b.I(self.reads(scope), pairs=len(N[i - 1]['tgt']) == 2)
             N[i - 1]['body'] = self.directive(fn) + self.block(fn, scope, depth + 1, True, infinally)
             if self.loop_else and self.r.random() < 0.3:
                 N[i - 1]['orelse'] = self.block(fn, scope, depth + 1, inloop, infinally)
@@ -571,7 +573,7 @@ def r_expr(p, e):
     x = p['exprs'][e - 1]
     k = x['kind']
     if k in ('T', 'D', 'I'):
-        return '%s(%s)' % (k, ', '.join([str(x['k'])] + x['reads']))
+        return '%s(%s)' % (k + (x['name'] if k == 'I' else ''), ', '.join([str(x['k'])] + x['reads']))
     if k == 'name':
         return x['name']
     if k == 'attr':
@@ -765,7 +767,7 @@ def enc(v):
     if isinstance(v, int):
         return ['i', v, 0]
     if isinstance(v, IList):
-        return ['l', v.serial, len(v)]
+        return ['l2' if v.pairs else 'l', v.serial, len(v)]
     if isinstance(v, list):       # the result of a comprehension
         return ['c', len(v), 0]
     if isinstance(v, (Obj, KVDict)):
@@ -784,6 +786,7 @@ class IList(list):
     iteration protocol itself - how often the iterator is advanced - is part of the observable behaviour."""
     serial = 0
     run = None
+    pairs = False
 
     def __iter__(self):
         j = 0
@@ -843,6 +846,17 @@ class Run:
         self.log.append(['DEC', k, []])
         return lambda fn: fn
 
+    def I2(self, k, *a):
+        """A list of pairs (for loops with a tuple target): element j is (e[2j-1], e[2j])."""
+        self.log.append(['I', k, [enc(x) for x in a]])
+        d = self.nextdec()
+        s = len(self.log)
+        r = IList((Tok(('e', s, 2 * j - 1)), Tok(('e', s, 2 * j))) for j in range(1, d + 1))
+        r.serial = s
+        r.run = self
+        r.pairs = True
+        return r
+
     def O(self):
         self.nobj += 1
         o = Obj()
@@ -869,7 +883,7 @@ class Run:
         return _CM()
 
     def ns(self):
-        return dict(T=self.T, D=self.D, I=self.I, CM=self.CM, O=self.O, KV=self.KV, DEC=self.DEC, E1=E1, E2=E2, set_loop_options=_no_directive)
+        return dict(T=self.T, D=self.D, I=self.I, I2=self.I2, CM=self.CM, O=self.O, KV=self.KV, DEC=self.DEC, E1=E1, E2=E2, set_loop_options=_no_directive)
 
 
 def main_args(p, inp=None):
